@@ -20,8 +20,9 @@ pub fn check_structure(a: &Automaton, what: &str, o: &mut Outcome) -> bool {
         let mut prev_end: Option<u32> = None;
         let mut covered: u64 = 0;
         for r in s.char_ranges() {
-            let lo = r.pick();
+            let (lo, hi32) = crate::bisim::bounds_of(r);
             let hi = lo as u64 + r.size() as u64 - 1;
+            let _ = hi32;
             if hi > MAX as u64 || !r.contains(lo) || !r.contains(hi as u32) || prev_end.map_or(false, |e| lo <= e) {
                 o.fail("C02/state-ranges-malformed", format!("{}: state {} has ranges that are not sorted/disjoint/within the alphabet", what, s.id()));
                 return false;
